@@ -46,6 +46,8 @@ class GoVerifier(GoExec, SpecMixin, CallsMixin, StmtsMixin, LibMixin):
                 self.number_loops(d)
         decl = self.funcs.get(key)
         c = self.contracts.get(key)
+        if decl is None and '#lit' in key:
+            decl = self.lit_region(key)
         if decl is None:
             raise Unsupported('function %s not found in /repo (contract does not bind)' % key)
         reset_fresh()        # obligations of one function do not depend on what was verified before it
@@ -66,6 +68,41 @@ class GoVerifier(GoExec, SpecMixin, CallsMixin, StmtsMixin, LibMixin):
             return self._verify(key, decl, c, fr)
         finally:
             self.mode, self.lay = saved_mode, saved_lay
+
+    def lit_region(self, key):
+        """`<func>#lit<n>`: the n-th function literal of <func> (source order) as a unit of verification; the variables it
+        captures from the enclosing function become symbolic inputs that the contract can name"""
+        base, n = key.split('#lit')
+        outer = self.funcs.get(base)
+        if outer is None:
+            return None
+        lits = []
+        def walk(x):
+            if isinstance(x, list):
+                for y in x: walk(y)
+            elif isinstance(x, dict):
+                if x.get('_') == 'FuncLit': lits.append(x)
+                for k, y in x.items():
+                    if k not in ('obj', 'sel', 'implicit') and isinstance(y, (dict, list)): walk(y)
+        walk(outer.get('Body'))
+        if int(n) < 1 or int(n) > len(lits):
+            return None
+        lit = lits[int(n) - 1]
+        def varobjs(x, acc, skip=None):
+            if x is skip: return
+            if isinstance(x, list):
+                for y in x: varobjs(y, acc, skip)
+            elif isinstance(x, dict):
+                if x.get('_') == 'Ident' and isinstance(x.get('obj'), dict) and x['obj'].get('kind') == 'Var' and not x['obj'].get('global') and not x['obj'].get('field'):
+                    acc[x['obj']['id']] = x['obj']
+                for k, y in x.items():
+                    if k not in ('obj', 'sel', 'implicit') and isinstance(y, (dict, list)): varobjs(y, acc, skip)
+        inner, outside = {}, {}
+        varobjs(lit['Body'], inner)
+        varobjs(outer, outside, skip=lit)
+        captured = [o for i, o in inner.items() if i in outside]
+        return {'_': 'FuncDecl', 'Name': {'Name': key.split('.')[-1]}, 'Type': lit['Type'], 'Body': lit['Body'], 'file': outer.get('file'), 'pkg': outer.get('pkg'),
+                'line': lit.get('line'), 'captured': captured}
 
     def frame_inlines_of(self, c):
         s = set()
@@ -91,6 +128,10 @@ class GoVerifier(GoExec, SpecMixin, CallsMixin, StmtsMixin, LibMixin):
                 v = self.lay.fresh(n['obj']['t'], n['Name'])
                 st.env[n['obj']['id']] = v; st.names[n['Name']] = n['obj']['id']
                 st.pc += self.lay.wf(v, n['obj']['t'])
+        for o in decl.get('captured', []) or []:        # captured variables of a function-literal region
+            cv = self.lay.fresh(o['t'], o['name'])
+            st.env[o['id']] = cv; st.names[o['name']] = o['id']
+            st.pc += self.lay.wf(cv, o['t'])
         rnames = []
         i = 0
         for fld in (decl['Type'].get('Results') or {}).get('List', []) or []:
